@@ -57,13 +57,14 @@ type Ctx struct {
 	vsigs    map[string]int
 	progress *os.File
 	MaxViol  int
-	Deadline int64 // unix seconds; 0 = none (internal budget: exit 0 with exhaustive=false)
+	Deadline int64          // unix seconds; 0 = none (internal budget: exit 0 with exhaustive=false)
+	Args     map[string]int // extra k=v arguments of the job
 }
 
 func NewCtx(prop, tier, job string, shard, nshards int, outDir string) *Ctx {
 	c := &Ctx{Prop: prop, Tier: tier, Shard: shard, NShards: nshards, Job: job, OutDir: outDir,
 		Res:      &Result{Prop: prop, Job: job, Counters: map[string]int64{}, Exhaustive: true},
-		distinct: map[uint64]struct{}{}, vsigs: map[string]int{}, MaxViol: 3}
+		distinct: map[uint64]struct{}{}, vsigs: map[string]int{}, MaxViol: 3, Args: map[string]int{}}
 	if outDir != "" {
 		f, err := os.OpenFile(fmt.Sprintf("%s/progress-%s-%s-%d", outDir, prop, job, shard), os.O_CREATE|os.O_RDWR|os.O_TRUNC, 0o644)
 		if err == nil {
@@ -103,6 +104,9 @@ func (c *Ctx) Distinct(b []byte) bool {
 }
 
 func (c *Ctx) DistinctCount() int { return len(c.distinct) }
+
+// DistinctHash adds an already computed hash.
+func (c *Ctx) DistinctHash(v uint64) { c.distinct[v] = struct{}{} }
 
 // Sample keeps up to n samples.
 func (c *Ctx) Sample(v any, n int) {
